@@ -332,6 +332,21 @@ def shrink(o, k):
     return ExactState(o.L0, o.U0, fadd(fI(), fscale(e, Fr(1, k))), o.R)
 
 
+def rescale(st, k):
+    """the same grain seen from the reference cell k.L0 (all cell lengths times k, angles kept): its ubi is
+    (k.L0).U0^T.(S/k).R^T, i.e. stretch S/k and the same rotation.  Memoised on the state."""
+    k = Fr(k)
+    if k == 1:
+        return st
+    memo = st.__dict__.setdefault("_scaled", {})
+    if k not in memo:
+        t = ExactState(fscale(st.L0, k), st.U0, fscale(st.S, 1 / k), st.R)
+        if t.ubi != st.ubi:
+            raise OracleMismatch("rescaled state is not the same grain")
+        memo[k] = t
+    return memo[k]
+
+
 def close(x, e, floor=1e-12, rel=1e-9):
     """|x - e| <= rel*scale + floor, scale = largest magnitude in the expected tensor; NaN only matches NaN"""
     x = np.asarray(x, float)
